@@ -79,7 +79,12 @@ def check(run):
         open(sp, "w").write("\n".join(setup) + "\n")
         open(op, "w").write("\n".join(ops) + "\n")
         open(hp, "w").write("\n".join(hot) + "\n")
-        for n, op, ops in [(n, op, ops) for n in ((8,) if quick else (2, 8, 32))] + [(n, hp, hot) for n in ((8,) if quick else (3, 8, 16))]:
+        # the same once more on an instance built by `RLN::new_with_params` (caller-supplied key and graph): what `RLN::new` prepares at
+        # construction such an instance may prepare on first use — here the first use is the concurrent one
+        sp2 = os.path.join(td, "setup2.ops")
+        open(sp2, "w").write("\n".join(["rln new_params"] + setup[1:]) + "\n")
+        runs = [(n, sp, op, ops) for n in ((8,) if quick else (2, 8, 32))] + [(n, sp, hp, hot) for n in ((8,) if quick else (3, 8, 16))] + [(8, sp2, op, ops)]
+        for n, sp, op, ops in runs:
             try:
                 p = subprocess.run([zkh, "shared", str(n), sp, op], stdout=subprocess.PIPE, stderr=subprocess.PIPE, timeout=900)
                 out = p.stdout.decode().splitlines()
